@@ -214,8 +214,8 @@ Proof. vm_compute. reflexivity. Qed.
 
 
 (* ------------------------------------------------------------------------------------------ *)
-(* ORACLE SOUNDNESS, PARTIAL (see Properties/C01.v for model_transcript and the hypotheses, including the
-   excluded corner `no_stale`): the monitor rule R06_no_claim_after_timeout ("a listening / idle station that
+(* ORACLE SOUNDNESS, PARTIAL (see Properties/C01.v for model_transcript and the hypotheses; all input
+   histories): the monitor rule R06_no_claim_after_timeout ("a listening / idle station that
    has certainly seen nothing for its time-out claims the token in this poll") is never reported on a
    transcript of the model.  NOT covered: R06_no_backoff.
    FULL: forall r, In (k, r) (monitor ..) -> rule_prop r <> PC06. *)
@@ -224,7 +224,7 @@ From PB Require Import Params C05Proofs FdlOracle FdlOracleSound1 FdlOracleSound
 Theorem C06_oracle_sound_partial : forall (A : Type) (ops : app_ops A) (p : params),
   apps_total A ops -> builder_valid p ->
   forall (apps : list A) (ins : list minput),
-  ins_ok 0 ins -> transcript_ok A ops p no_stale apps ins ->
+  ins_ok 0 ins ->
   forall k r, In (k, r) (monitor p (length apps) (model_transcript A ops p apps ins)) -> r <> R06_no_claim_after_timeout.
 Proof. exact c06_claim_oracle_sound. Qed.
 Print Assumptions C06_oracle_sound_partial.
